@@ -295,6 +295,12 @@ def bounded(tier, seed):
                     for x_ in ('tracerinfo.dat', 'diaginfo.dat'):
                         shutil.copy(os.path.join(sbase, 'geoschemfiles', x_), d_)
                 pool[nm] = (fmt, os.path.join(d_, nm))
+        # meteorological formats whose isMine answers with a numpy boolean (one3d family), under their own suffix
+        for fmt in ('humidity', 'vertical_diffusivity'):
+            d_ = os.path.join(tmp, 'pool_met_' + fmt)
+            os.makedirs(d_, exist_ok=True)
+            shutil.copy(os.path.join(sbase, 'camxfiles', fmt, 'test.' + fmt), os.path.join(d_, 'sample.' + fmt))
+            pool['sample.' + fmt] = (fmt, os.path.join(d_, 'sample.' + fmt))
         # a short ICARTT file written by the library itself (fewer than 28 lines)
         from PseudoNetCDF.icarttfiles.ffi1001 import ncf2ffi1001
         sf = P.PseudoNetCDFFile()
